@@ -15,7 +15,7 @@
 (*   [k|->"un",  op, e]      op \in - ~ !                                    *)
 (*   [k|->"cmp", op, l, r]   op \in = != < <= > >=                          *)
 (*   [k|->"like", neg, l, r]                                                *)
-(*   [k|->"in", neg, l, list|->Seq(e)]    [k|->"insub", l, q]               *)
+(*   [k|->"in", neg, l, list|->Seq(e)]    [k|->"insub", l, q, neg?]             *)
 (*   [k|->"between", neg, e, lo, hi]                                        *)
 (*   [k|->"is", op, e]  op \in null notnull true false nottrue notfalse     *)
 (*   [k|->"and", l, r]  [k|->"or", l, r]  [k|->"not", e]                    *)
@@ -218,9 +218,10 @@ Ev(e, row, data) ==
             LET a  == Ev(e.l, Marked(row, data), data)
                 rs == RunQ(e.q, Marked(row, data))
             IN  IF IsErr(a) \/ IsErr(rs) \/ ~IsArr(rs) THEN Err
-                ELSE BoolV(\E i \in DOMAIN rs.e :
+                \* (NOT IN over a subquery - field neg, optional - is the complement)
+                ELSE BoolV((\E i \in DOMAIN rs.e :
                              /\ IsObj(rs.e[i])
-                             /\ \E kk \in Keys(rs.e[i]) : Cmp(a, rs.e[i].f[kk]) = 0)
+                             /\ \E kk \in Keys(rs.e[i]) : Cmp(a, rs.e[i].f[kk]) = 0) # ("neg" \in DOMAIN e /\ e.neg))
       [] e.k = "between" ->
             LET a  == Ev(e.e, row, data)
                 lo == Ev(e.lo, row, data)
